@@ -24,6 +24,7 @@ var c16Sources = []string{"elys", "band", "x", "ys", "lys", "e", "elysx", "bandx
 type c16Op struct {
 	Kind   string `json:"kind"`          // feed | feedmulti | setactive | delfeeder | addfeeder | rmfeeder | endblock | lookup | denomlookup | params | assetinfo | rminfo
 	Who    int    `json:"who,omitempty"` // account index (0..2 users, 3 = feeder)
+	More   []int  `json:"more_targets,omitempty"` // addfeeder / rmfeeder: further list entries (account indexes; duplicates and unregistered accounts allowed)
 	Asset  string `json:"asset,omitempty"`
 	Source string `json:"source,omitempty"`
 	Price  string `json:"price,omitempty"`
@@ -245,12 +246,21 @@ func (m *c16Machine) apply(op c16Op) error {
 			auth = GovAddr()
 		}
 		target := m.actors[(op.Who+1)%len(m.actors)]
+		targets := []string{target.Addr.String()}
+		for _, k := range op.More {
+			a := m.actors[((k%len(m.actors))+len(m.actors))%len(m.actors)].Addr.String()
+			if k%2 == 0 {
+				targets = append(targets, a) // behind the first entry
+			} else {
+				targets = append([]string{a}, targets...) // in front of it
+			}
+		}
 		var msg sdk.Msg
 		switch op.Kind {
 		case "addfeeder":
-			msg = &oracletypes.MsgAddPriceFeeders{Authority: auth, Feeders: []string{target.Addr.String()}}
+			msg = &oracletypes.MsgAddPriceFeeders{Authority: auth, Feeders: targets}
 		case "rmfeeder":
-			msg = &oracletypes.MsgRemovePriceFeeders{Authority: auth, Feeders: []string{target.Addr.String()}}
+			msg = &oracletypes.MsgRemovePriceFeeders{Authority: auth, Feeders: targets}
 		case "params":
 			p := w.App.OracleKeeper.GetParams(m.ctx)
 			p.PriceExpiryTime, p.LifeTimeInBlocks = op.Expiry, op.Life
@@ -278,9 +288,16 @@ func (m *c16Machine) apply(op c16Op) error {
 		}
 		switch op.Kind {
 		case "addfeeder":
-			m.Feeders[target.Addr.String()] = true
+			for _, a := range targets {
+				m.Feeders[a] = true
+			}
 		case "rmfeeder":
-			delete(m.Feeders, target.Addr.String())
+			for _, a := range targets {
+				delete(m.Feeders, a)
+			}
+			if len(targets) > 1 {
+				m.Labels["rmfeeder-list"] = true
+			}
 		case "params":
 			m.Expiry, m.Life = op.Expiry, op.Life
 		case "rminfo":
@@ -458,6 +475,11 @@ func TestC16(t *testing.T) {
 			case 16:
 				kinds := []string{"addfeeder", "rmfeeder", "delfeeder"}
 				op = c16Op{Kind: kinds[UniformDraw(rt, "fk", 3)], Who: UniformDraw(rt, "who", 4), Gov: UniformDraw(rt, "gov", 3) > 0}
+				if op.Kind != "delfeeder" {
+					for i, n := 0, UniformDraw(rt, "fk/more", 3); i < n; i++ {
+						op.More = append(op.More, UniformDraw(rt, "fk/moreidx", 8))
+					}
+				}
 			case 17:
 				op = c16Op{Kind: "assetinfo", Who: UniformDraw(rt, "who", 4), Denom: "u" + strings.ToLower(pick(rt, "asset", c16Assets)), Asset: pick(rt, "asset2", c16Assets), Dec: uint64(6 + UniformDraw(rt, "dec", 3)*6)}
 			case 18:
